@@ -408,3 +408,19 @@ Qed.
 (* without a sufficient pad the library's FromBinaryStr fails on values with an odd number of hex digits *)
 Example bytes_from_binstr_odd_refuted : bytes_from_binstr (bytes_to_binstr [1] 8) 0 = Err ValueError.
 Proof. vm_compute. reflexivity. Qed.
+
+(* the binary-string parsers fail only with ValueError *)
+Theorem int_from_binstr_err s e : int_from_binstr s = Err e -> e = ValueError.
+Proof.
+  unfold int_from_binstr, parse_int2. destruct (split_sign _) as [neg s2].
+  destruct (starts_with_us _); [unfold Err; congruence|].
+  destruct (scan2 _ _ _ _) as [[[v any] rest]|]; [|unfold Err; congruence].
+  destruct any; [|unfold Err; congruence]. destruct (lstrip_ws rest); [discriminate|unfold Err; congruence].
+Qed.
+
+Theorem bytes_from_binstr_err s pad e : bytes_from_binstr s pad = Err e -> e = ValueError.
+Proof.
+  unfold bytes_from_binstr. destruct (parse_int2 s) as [v|e1] eqn:P; cbn [bind].
+  - destruct (v <? 0)%Z; [unfold Err; congruence|]. apply unhexlify_err.
+  - intros E. assert (e1 = e) by (unfold Err in E; congruence). subst. eapply int_from_binstr_err. exact P.
+Qed.
